@@ -403,6 +403,7 @@ theorem step_binv (L : LTables) (B : BTables) (hso : StructOk L B) (s : BState) 
   | insertRaw _ _ => cases hp
   | selectFunction _ => cases hp
   | selectBlock _ => cases hp
+  | selectByName _ => cases hp
   | popInstruction => cases hp
 
 /-! ### histories -/
@@ -565,6 +566,7 @@ theorem step_hdr (L : LTables) (B : BTables) (hdef : VersionNormal B.defaultVers
   | insertRaw _ _ => cases hp
   | selectFunction _ => cases hp
   | selectBlock _ => cases hp
+  | selectByName _ => cases hp
   | popInstruction => cases hp
 
 theorem run_hdr (L : LTables) (B : BTables) (hdef : VersionNormal B.defaultVersion) : ∀ (cs : List Call) (s : BState),
